@@ -295,19 +295,71 @@ impl Account {
     }
 }
 
+/// An m-of-n P2SH multisig fixture. `sks` / `pks` are in REDEEM-SCRIPT order.
 pub struct Multisig {
+    pub m: usize,
     pub sks: Vec<secp256k1::SecretKey>,
+    pub pks: Vec<[u8; 33]>,
     pub addr: TransparentAddress,
-    pub redeem: zcash_script::script::Redeem,
+    pub redeem_bytes: Vec<u8>,
+    /// "zip48-sorted", "ascending", "descending", "shuffled"
+    pub order: &'static str,
+}
+
+impl Multisig {
+    pub fn n(&self) -> usize {
+        self.sks.len()
+    }
+    pub fn redeem(&self) -> zcash_script::script::FromChain {
+        zcash_script::script::FromChain::parse(&zcash_script::script::Code(self.redeem_bytes.clone())).expect("redeem script parses")
+    }
+    /// true if the script's key order differs from the byte order of the keys
+    pub fn unsorted(&self) -> bool {
+        self.pks.windows(2).any(|w| w[0] > w[1])
+    }
+    fn plain(m: usize, mut keys: Vec<(secp256k1::SecretKey, [u8; 33])>, order: &'static str, rng: &mut ChaCha20Rng) -> Self {
+        match order {
+            "ascending" => keys.sort_by(|a, b| a.1.cmp(&b.1)),
+            "descending" => keys.sort_by(|a, b| b.1.cmp(&a.1)),
+            _ => loop {
+                keys.shuffle(rng);
+                if keys.windows(2).any(|w| w[0].1 > w[1].1) {
+                    break;
+                }
+            },
+        }
+        // multi(m, K..): OP_m <K1> .. <Kn> OP_n OP_CHECKMULTISIG
+        let mut rb = vec![0x50 + m as u8];
+        for (_, pk) in &keys {
+            rb.push(33);
+            rb.extend_from_slice(pk);
+        }
+        rb.push(0x50 + keys.len() as u8);
+        rb.push(0xae);
+        use ripemd::Ripemd160;
+        use sha2::{Digest, Sha256};
+        let h: [u8; 20] = Ripemd160::digest(Sha256::digest(&rb)).into();
+        Multisig {
+            m,
+            sks: keys.iter().map(|k| k.0).collect(),
+            pks: keys.iter().map(|k| k.1).collect(),
+            addr: TransparentAddress::ScriptHash(h),
+            redeem_bytes: rb,
+            order,
+        }
+    }
 }
 
 pub struct World {
     pub accounts: Vec<Account>,
-    pub multisig: Multisig,
+    /// [0] is the ZIP 48 2-of-3 `sortedmulti` account; the others are plain `multi()` scripts with
+    /// thresholds 1..3 of 2..4 keys in ascending, descending and shuffled key order
+    pub multisigs: Vec<Multisig>,
 }
 
 impl World {
     pub fn new(rng: &mut ChaCha20Rng) -> Self {
+        use zcash_script::script::Evaluable;
         let accounts = (0..3)
             .map(|_| {
                 let mut seed = [0u8; 32];
@@ -330,14 +382,48 @@ impl World {
         )
         .expect("zip48 fvk");
         let (addr, redeem) = fvk.derive_address(Scope::External, NonHardenedChildIndex::ZERO);
-        let sks = asks
+        let redeem_bytes = redeem.to_bytes();
+        let secp = secp256k1::Secp256k1::new();
+        let zsks: Vec<secp256k1::SecretKey> = asks
             .iter()
             .map(|s| s.derive_signing_key(Scope::External, NonHardenedChildIndex::ZERO))
             .collect();
-        World {
-            accounts,
-            multisig: Multisig { sks, addr, redeem },
+        // put the keys in script order
+        let mut zk: Vec<(secp256k1::SecretKey, [u8; 33])> =
+            zsks.iter().map(|sk| (*sk, secp256k1::PublicKey::from_secret_key(&secp, sk).serialize())).collect();
+        zk.sort_by_key(|(_, pk)| redeem_bytes.windows(33).position(|w| w == pk).unwrap_or(usize::MAX));
+        let mut multisigs = vec![Multisig {
+            m: 2,
+            sks: zk.iter().map(|k| k.0).collect(),
+            pks: zk.iter().map(|k| k.1).collect(),
+            addr,
+            redeem_bytes,
+            order: "zip48-sorted",
+        }];
+        for (m, n, order) in [
+            (2usize, 3usize, "descending"),
+            (2, 3, "shuffled"),
+            (1, 2, "descending"),
+            (2, 2, "descending"),
+            (3, 3, "shuffled"),
+            (2, 4, "shuffled"),
+            (3, 4, "descending"),
+            (1, 3, "shuffled"),
+            (2, 3, "ascending"),
+            (3, 4, "ascending"),
+        ] {
+            let keys = (0..n)
+                .map(|_| loop {
+                    let mut b = [0u8; 32];
+                    rng.fill_bytes(&mut b);
+                    if let Ok(sk) = secp256k1::SecretKey::from_slice(&b) {
+                        break (sk, secp256k1::PublicKey::from_secret_key(&secp, &sk).serialize());
+                    }
+                })
+                .collect();
+            multisigs.push(Multisig::plain(m, keys, order, rng));
         }
+        World { accounts, multisigs }
     }
 }
 
@@ -355,8 +441,9 @@ fn sc(s: Scope) -> &'static str {
 #[derive(Clone, Debug)]
 pub enum TInKind {
     P2pkh { acct: usize, key: usize },
-    /// 2-of-3 multisig P2SH
-    P2sh,
+    /// m-of-n multisig P2SH: fixture index and the keys (positions in script order) that sign, in
+    /// signing order; at least m of them, possibly more (surplus signatures)
+    P2sh { ms: usize, signers: Vec<usize> },
     /// P2PKH coin, but the builder is handed the wrong public key (must be refused).
     WrongKey { acct: usize, key: usize },
 }
@@ -582,7 +669,7 @@ impl Request {
             .iter()
             .map(|t| match t.kind {
                 TInKind::P2pkh { .. } => 'k',
-                TInKind::P2sh => 's',
+                TInKind::P2sh { .. } => 's',
                 TInKind::WrongKey { .. } => 'w',
             })
             .collect();
@@ -803,7 +890,7 @@ pub fn materialise(w: &World, r: &Request, rng: &mut ChaCha20Rng) -> Materialise
             TInKind::P2pkh { acct, key } | TInKind::WrongKey { acct, key } => {
                 w.accounts[*acct].tkeys[*key].addr.script()
             }
-            TInKind::P2sh => w.multisig.addr.script(),
+            TInKind::P2sh { ms, .. } => w.multisigs[*ms].addr.script(),
         };
         coins.push(TxOut::new(
             Zatoshis::from_u64(t.value).expect("coin value"),
@@ -961,12 +1048,13 @@ pub fn make_builder(
                 b.add_transparent_p2pkh_input(other.pk, m.outpoints[i].clone(), m.coins[i].clone())
                     .map_err(|e| refuse("add_transparent_p2pkh_input", errs(e)))?;
             }
-            TInKind::P2sh => {
-                for sk in &w.multisig.sks {
-                    keys.tset.add_key(*sk);
+            TInKind::P2sh { ms, signers } => {
+                let fx = &w.multisigs[*ms];
+                for s in signers {
+                    keys.tset.add_key(fx.sks[*s]);
                 }
                 b.add_transparent_p2sh_input(
-                    w.multisig.redeem.weaken(),
+                    fx.redeem(),
                     m.outpoints[i].clone(),
                     m.coins[i].clone(),
                 )
@@ -1169,6 +1257,28 @@ fn gen_ospend(rng: &mut ChaCha20Rng, v3: bool) -> OSpend {
     }
 }
 
+/// Number of multisig fixtures in `World` (kept in sync by an assertion in the bins).
+pub const N_MULTISIG: usize = 11;
+/// (m, n) of the fixtures, by index.
+pub const MULTISIG_MN: [(usize, usize); N_MULTISIG] =
+    [(2, 3), (2, 3), (2, 3), (1, 2), (2, 2), (3, 3), (2, 4), (3, 4), (1, 3), (2, 3), (3, 4)];
+
+pub fn gen_p2sh(rng: &mut ChaCha20Rng, big: bool) -> TInKind {
+    let ms = loop {
+        let ms = rng.gen_range(0..N_MULTISIG);
+        if big || MULTISIG_MN[ms].1 <= 3 {
+            break ms;
+        }
+    };
+    let (m, n) = MULTISIG_MN[ms];
+    // who signs: exactly m, or more (surplus), in a random signing order
+    let k = if rng.gen_bool(0.5) { m } else { rng.gen_range(m..=n) };
+    let mut all: Vec<usize> = (0..n).collect();
+    all.shuffle(rng);
+    all.truncate(k);
+    TInKind::P2sh { ms, signers: all }
+}
+
 fn gen_pad(rng: &mut ChaCha20Rng) -> Pad {
     match rng.gen_range(0..10) {
         0..=4 => Pad::DEFAULT,
@@ -1215,6 +1325,8 @@ pub struct GenOpts {
     pub pczt_heights: bool,
     /// force delta = 0
     pub balanced_only: bool,
+    /// also use the 4-key multisig fixtures (139-byte redeem scripts)
+    pub big_multisig: bool,
     pub max_io: usize,
 }
 
@@ -1278,8 +1390,8 @@ pub fn gen_request(rng: &mut ChaCha20Rng, o: GenOpts) -> Request {
         for _ in 0..n(rng).max(1) {
             let mut h = [0u8; 32];
             rng.fill_bytes(&mut h);
-            let kind = if rng.gen_bool(0.15) {
-                TInKind::P2sh
+            let kind = if rng.gen_bool(0.2) {
+                gen_p2sh(rng, o.big_multisig)
             } else {
                 TInKind::P2pkh {
                     acct: rng.gen_range(0..3),
